@@ -57,7 +57,10 @@ func c05Docs(ts []int) []refdb.Doc {
 	}
 	docs := vfrac.MakeDocs(specs, false)
 	for i := range docs { // single-valued group / numeric field for aggregations
-		docs[i].Toks = append(docs[i].Toks, refdb.Tok{F: "g", V: fmt.Sprintf("g%d", i%2)}, refdb.Tok{F: "v", V: fmt.Sprint(i + 1)})
+		docs[i].Toks = append(docs[i].Toks, refdb.Tok{F: "g", V: fmt.Sprintf("g%d", i%2)})
+		if i%3 != 2 { // every third document has no numeric field: some fractions of a layout hold no value at all
+			docs[i].Toks = append(docs[i].Toks, refdb.Tok{F: "v", V: fmt.Sprint(i + 1)})
+		}
 	}
 	return docs
 }
